@@ -162,6 +162,7 @@ pub fn run(ctx: &Ctx) {
     // generated cases (larger CX, arbitrary registers)
     let n = ctx.tier.pick(120_000u32, 2_000_000u32);
     run_forms_n(ctx, FormSet::Strings, n, "Strings");
+    crate::l3fam::run(ctx, crate::l3fam::Fam::Set(FormSet::Strings), ctx.tier.pick(320usize, 6000usize));
     if ctx.tier == Tier::Thorough {
         crate::fuzzrun::exec_campaign(ctx, &["movs", "lods", "stos", "cmps", "scas"], &[]);
     }
